@@ -5,6 +5,8 @@ package symx
 // reported in the evidence as part of the claim.
 
 import (
+	"golang.org/x/tools/go/ssa"
+	"go/token"
 	"fmt"
 	"go/types"
 	"os"
@@ -77,6 +79,48 @@ func registerIntercepts(ex *Explorer) {
 		return newU256(c, t)
 	})
 	ex.register(zz+"Thorough", func(fr *frame, args []value) value { return fr.i.ctx.ex.Thorough })
+	// sync.Pool: whether Get returns a recycled object is up to the runtime (per-P caches,
+	// emptied by the garbage collector).  Model: Get returns the most recently Put object
+	// unless the harness has flushed the pools since (zzverif.PoolFlush; natively two GC
+	// cycles), in which case it calls New.
+	pools := func(c *pathCtx) map[*value][]value {
+		if c.scratch["pools"] == nil {
+			c.scratch["pools"] = map[*value][]value{}
+		}
+		return c.scratch["pools"].(map[*value][]value)
+	}
+	ex.register("(*sync.Pool).Put", func(fr *frame, args []value) value {
+		p := args[0].(*value)
+		if x, ok := args[1].(iface); ok && x.t == nil {
+			return nil
+		}
+		m := pools(fr.i.ctx)
+		m[p] = append(m[p], args[1])
+		return nil
+	})
+	ex.register("(*sync.Pool).Get", func(fr *frame, args []value) value {
+		p := args[0].(*value)
+		m := pools(fr.i.ctx)
+		if l := m[p]; len(l) > 0 {
+			x := l[len(l)-1]
+			m[p] = l[:len(l)-1]
+			return x
+		}
+		st := (*p).(structure)
+		newFn := st[fieldIndex(namedType(fr, "sync", "Pool"), "New")]
+		if newFn == nil {
+			return iface{}
+		}
+		if f, ok := newFn.(*ssa.Function); ok && f == nil {
+			return iface{}
+		}
+		return call(fr.i, fr, token.NoPos, newFn, nil)
+	})
+	ex.register(zz+"PoolFlush", func(fr *frame, args []value) value {
+		fr.i.ctx.scratch["pools"] = map[*value][]value{}
+		return nil
+	})
+	ex.register(zz+"SingleProc", noop)
 	// harness-controlled wall clock (see the clock stub in misc.go): ClockStart fixes the
 	// clock at an arbitrary instant and returns it (seconds), SetClock moves it
 	ex.register(zz+"ClockStart", func(fr *frame, args []value) value {
@@ -209,6 +253,41 @@ func registerIntercepts(ex *Explorer) {
 		return *p
 	})
 
+	// the remaining fixed-width atomics (single-threaded executor: plain memory operations)
+	for _, w := range []struct {
+		name string
+		t    types.Type
+	}{{"Int64", types.Typ[types.Int64]}, {"Uint32", types.Typ[types.Uint32]}, {"Uint64", types.Typ[types.Uint64]}, {"Uintptr", types.Typ[types.Uintptr]}} {
+		w := w
+		ex.register("sync/atomic.Load"+w.name, func(fr *frame, args []value) value { return *(args[0].(*value)) })
+		ex.register("sync/atomic.Store"+w.name, func(fr *frame, args []value) value { *(args[0].(*value)) = args[1]; return nil })
+		ex.register("sync/atomic.Swap"+w.name, func(fr *frame, args []value) value {
+			p := args[0].(*value)
+			old := *p
+			*p = args[1]
+			return old
+		})
+		ex.register("sync/atomic.Add"+w.name, func(fr *frame, args []value) value {
+			p := args[0].(*value)
+			*p = binop(token.ADD, w.t, *p, args[1])
+			return *p
+		})
+		ex.register("sync/atomic.CompareAndSwap"+w.name, func(fr *frame, args []value) value {
+			p := args[0].(*value)
+			if equals(w.t, *p, args[1]) {
+				*p = args[2]
+				return true
+			}
+			return false
+		})
+	}
+	ex.register("sync/atomic.SwapInt32", func(fr *frame, args []value) value {
+		p := args[0].(*value)
+		old := *p
+		*p = args[1]
+		return old
+	})
+
 	// ---- bytes ------------------------------------------------------------
 	ex.register("bytes.Compare", func(fr *frame, args []value) value {
 		return bytesCompare(fr.i.ctx, args[0].([]value), args[1].([]value))
@@ -238,6 +317,16 @@ func registerIntercepts(ex *Explorer) {
 	})
 	ex.register("fmt.Errorf", func(fr *frame, args []value) value {
 		msg := sprintfStub(args[0].(string), args[1].([]value))
+		// %w: the result wraps the (first) error operand, as *fmt.wrapError does
+		if f := args[0].(string); strings.Contains(f, "%w") {
+			for _, a := range args[1].([]value) {
+				if e, ok := a.(iface); ok && e.t != nil && fr.i.findMethod(e.t, "Error") != nil {
+					wt := namedType(fr, "fmt", "wrapError")
+					var cell value = structure{msg, e}
+					return iface{t: types.NewPointer(wt), v: &cell}
+				}
+			}
+		}
 		return fr.i.newError(msg)
 	})
 	ex.register("fmt.Sprint", func(fr *frame, args []value) value {
